@@ -9,7 +9,8 @@
   network bytes.  What is an oracle input (computed by the harness with the real libraries and
   passed in the op line): `Path.Reverse()` (`rev`), `spao.ComputeAuthCMAC` (`mac`), the verdict
   of the NTP/NTS layer on the payload (`ntpOk`), key availability (`fetchOk`).
-  gopacket/slayers parsing and serialisation, sockets and timestamps are outside.
+  gopacket/slayers parsing and serialisation, sockets and timestamps are outside — except for the
+  forwarding branch, whose handling of the extension headers is modelled (`Wire`, `fwdWire`).
 
   `handleG false` is the code as found (F4: one datagram kills the listener), `handleG true`
   the code after the `fix:` commits.  Core Lean only.
@@ -82,7 +83,71 @@ structure Pkt where
   mac : Option (List Nat)    -- oracle: MAC the server computes; none = ComputeAuthCMAC fails
   payload : List Nat         -- UDP / SCMP payload
   ntpOk : Bool               -- oracle: the NTP/NTS layer accepts the payload and produces a response
+  /- extension headers in full (forwarding branch; `e2e`, `auth` above are what the serving branch reads) -/
+  hbh : Option (List Nat) := none        -- the packet has a hop-by-hop extension: its bytes after the NextHdr field (opaque)
+  opts : List (Nat × List Nat) := []     -- the non-padding options (type, data) of the end-to-end extension, in order
+  stamp : Bool := true                   -- a kernel receive timestamp came with the datagram (`len(oob) != 0`)
   deriving Repr, DecidableEq
+
+/-- A `NextHdr` field, as far as the listener tells values apart. -/
+inductive Next where
+  | hbh | e2e | udp
+  deriving Repr, DecidableEq
+
+/-- An end-to-end option of a forwarded packet. -/
+inductive EOpt where
+  | recv (type : Nat) (data : List Nat)  -- option of the received packet, type and data unchanged
+  | ownTs                                -- added by the dispatcher: type `OptTypeTimestamp`, data = the rx ancillary data
+  deriving Repr, DecidableEq
+
+/-- What the forwarding branch serialises between the SCION header and the UDP header. -/
+structure Wire where
+  next : Next                            -- `scionLayer.NextHdr` as written
+  hbh : Option (Next × List Nat)         -- hop-by-hop extension written: its NextHdr field and its remaining bytes
+  e2e : Option (List EOpt)               -- end-to-end extension written (NextHdr = UDP): its non-padding options
+  deriving Repr, DecidableEq
+
+/-- The chain of NextHdr fields announces exactly the headers that follow: an end host parses the
+    datagram as `SCION [HBH] [E2E] UDP`. -/
+def Wire.parses (w : Wire) : Bool :=
+  match w.hbh, w.e2e with
+  | none, none => w.next == .udp
+  | none, some _ => w.next == .e2e
+  | some (n, _), none => w.next == .hbh && n == .udp
+  | some (n, _), some _ => w.next == .hbh && n == .e2e
+
+def EOpt.received? : EOpt → Option (Nat × List Nat)
+  | .recv t d => some (t, d)
+  | .ownTs => none
+
+/-- The received options among the forwarded ones, in order. -/
+def Wire.received (w : Wire) : List (Nat × List Nat) := (w.e2e.getD []).filterMap EOpt.received?
+
+/-- `scionLayer.NextHdr` of the received packet. -/
+def recvNext (p : Pkt) : Next := if p.hbh.isSome then .hbh else if p.e2e then .e2e else .udp
+
+def recvOpts (p : Pkt) : List EOpt := p.opts.map fun o => .recv o.1 o.2
+
+/-- The forwarding branch **as found** (`if scionLayer.NextHdr != slayers.End2EndClass { e2eLayer =
+    slayers.EndToEndExtn{} … }`, `if scionLayer.NextHdr == slayers.End2EndClass { e2eLayer.SerializeTo }`,
+    the hop-by-hop layer is a `HopByHopExtnSkipper` and never serialised): with a receive timestamp a
+    packet whose first extension is hop-by-hop gets a fresh end-to-end extension holding the timestamp
+    option only; without one nothing is serialised for it while NextHdr keeps announcing it. -/
+def fwdWireOld (p : Pkt) : Wire :=
+  if p.stamp then
+    if recvNext p ≠ .e2e then { next := .e2e, hbh := none, e2e := some [.ownTs] }
+    else { next := .e2e, hbh := none, e2e := some (recvOpts p ++ [.ownTs]) }
+  else if recvNext p = .e2e then { next := .e2e, hbh := none, e2e := some (recvOpts p) }
+  else { next := recvNext p, hbh := none, e2e := none }
+
+/-- The forwarding branch after the repair: the hop-by-hop extension is written back as received,
+    the end-to-end extension keeps its options, and the dispatcher's timestamp option is appended
+    (to a new extension if there was none) iff a receive timestamp exists. -/
+def fwdWire (p : Pkt) : Wire :=
+  let recvd : Option (List EOpt) := if p.e2e then some (recvOpts p) else none
+  let e2e : Option (List EOpt) := if p.stamp then some (recvd.getD [] ++ [.ownTs]) else recvd
+  let after : Next := if e2e.isSome then .e2e else .udp
+  { next := if p.hbh.isSome then .hbh else after, hbh := p.hbh.map fun b => (after, b), e2e := e2e }
 
 structure Cfg where
   connPort : Nat             -- port the socket is bound to
@@ -120,7 +185,8 @@ structure Reply where
 structure Fwd where
   toAddr : List Nat
   toPort : Nat
-  pkt : Pkt                  -- SCION header, UDP header and payload as received
+  pkt : Pkt                  -- SCION header, UDP ports and payload as received
+  wire : Wire                -- extension headers as written
   deriving Repr, DecidableEq
 
 inductive Outcome where
@@ -227,7 +293,7 @@ def handleG (fixed : Bool) (cfg : Cfg) (p : Pkt) : Outcome :=
       (if fixed then .drop "dst-addr" else .panic "explicit:unexpected_IP_address_byte_slice")
     else if p.dstPort ≠ cfg.localHostPort then
       if cfg.connPort ≠ EndhostPort ∨ p.dstPort = EndhostPort then .drop "forward-port"
-      else .forward { toAddr := p.dstAddr, toPort := p.dstPort, pkt := p }
+      else .forward { toAddr := p.dstAddr, toPort := p.dstPort, pkt := p, wire := fwdWire p }
     else if cfg.localHostPort = EndhostPort then .drop "endhost-port"
     else
       match authCheck fixed cfg p with
@@ -261,6 +327,22 @@ def keyOf (p : Pkt) : KeyId :=
 def handleOld : Cfg → Pkt → Outcome := handleG false
 /-- The code after the `fix:` commits. -/
 def handle : Cfg → Pkt → Outcome := handleG true
+
+/-- The listener with the forwarding branch as found (everything else as repaired). -/
+def handleFwdOld (cfg : Cfg) (p : Pkt) : Outcome :=
+  match handle cfg p with
+  | .forward f => .forward { f with wire := fwdWireOld p }
+  | o => o
+
+/-- The option lists of a packet are consistent: options only inside an end-to-end extension, and
+    `auth` is the data of the first authenticator option (type 2 = `slayers.OptTypeAuthenticator`). -/
+def Pkt.extWF (p : Pkt) : Prop :=
+  (p.e2e = false → p.opts = []) ∧ p.auth = (p.opts.find? (fun o => o.1 == 2)).map (·.2)
+
+instance (p : Pkt) : Decidable p.extWF := by unfold Pkt.extWF; infer_instance
+
+/-- Data of the first authenticator option of a forwarded packet. -/
+def Wire.auth (w : Wire) : Option (List Nat) := (w.received.find? (fun o => o.1 == 2)).map (·.2)
 
 /-- The request passed the DRKey check as authenticated. -/
 def verified (cfg : Cfg) (p : Pkt) : Prop := authCheck true cfg p = .go true
